@@ -475,7 +475,7 @@ Definition otp_show (page : bytes) : M unit :=
   '(u, _) <- current_user ;; respond page (otp_count_data u).
 
 (* ---- register (register/register.go:58) ---------------------------------------- *)
-Definition whitelist_register : list bytes := [f_email; f_password].
+Definition whitelist_register : list bytes := [f_email].
 Definition arbitrary_of (vals : amap) : amap :=
   filter (fun kv => bmem (fst kv) whitelist_register) (map (fun k => (k, aget k vals)) (
     nodup bytes_dec (map fst vals))).
@@ -516,7 +516,7 @@ Definition confirm_get : M unit :=
     log [] ;;; invalid_confirm_token
   else
   match b64url_dec tok with
-  | None => log [tok] ;;; invalid_confirm_token
+  | None => log [] ;;; invalid_confirm_token
   | Some raw =>
       if negb (Nat.eqb (length raw) 64) then log [] ;;; invalid_confirm_token else
       let sel := selector_of raw in
@@ -550,7 +550,7 @@ Definition recover_start_post : M unit :=
     match r with
     | Err ErrUserNotFound => log [pid] ;;; redirect (ro_ok p_recover_ok)
     | Panic => panic
-    | Err _ => panic                     (* recover.go:104: MustBeRecoverable(nil) *)
+    | Err e => fail e
     | Ok u =>
         set_cuser u ;;;
         '(sel, ver, tok) <- generate_token ;;
